@@ -12,14 +12,17 @@ Inductive nearest (s : state) (ty : nat) : nat -> option Z -> Prop :=
     nearest s ty p r -> nearest s ty id r
 | near_top id nd :
     nodes s !! id = Some nd -> ctx_find ty (n_context nd) = None -> n_parent nd = None ->
-    nearest s ty id None.
+    nearest s ty id None
+(* a scope that is already gone provides nothing and ends the walk (its children can outlive it while it is being disposed) *)
+| near_gone id : nodes s !! id = None -> nearest s ty id None.
 
 (* whenever the walk answers, it answers with the nearest provision, and it changes nothing *)
-Lemma use_ctx_from_nearest g : forall ty id first s r s',
-  use_ctx_from g ty id first s = Ok r s' -> nearest s ty id r /\ s' = s.
+Lemma use_ctx_from_nearest fx g : forall ty id first s r s',
+  use_ctx_from fx g ty id first s = Ok r s' -> nearest s ty id r /\ s' = s.
 Proof.
   induction g as [|g IH]; intros ty id first s r s' H; cbn in H; [discriminate|].
-  destruct (nodes s !! id) as [nd|] eqn:Hn; [|discriminate].
+  destruct (nodes s !! id) as [nd|] eqn:Hn.
+  2:{ destruct (fx && negb first); [|discriminate]. inversion H; subst. split; [|reflexivity]. apply near_gone; exact Hn. }
   destruct (ctx_find ty (n_context nd)) as [v|] eqn:Hc.
   - inversion H; subst. split; [|reflexivity]. eapply near_here; eassumption.
   - destruct (n_parent nd) as [p|] eqn:Hp.
@@ -30,9 +33,9 @@ Qed.
 (* the relation is functional: there is exactly one nearest provision *)
 Lemma nearest_functional s ty id r1 r2 : nearest s ty id r1 -> nearest s ty id r2 -> r1 = r2.
 Proof.
-  intros H1; revert r2; induction H1 as [id nd v Hn Hc|id nd p r Hn Hc Hp _ IH|id nd Hn Hc Hp]; intros r2 H2;
-    inversion H2 as [id' nd' v' Hn' Hc'|id' nd' p' r' Hn' Hc' Hp' Hr'|id' nd' Hn' Hc' Hp']; subst;
-    rewrite Hn in Hn'; inversion Hn'; subst; try congruence.
+  intros H1; revert r2; induction H1 as [id nd v Hn Hc|id nd p r Hn Hc Hp _ IH|id nd Hn Hc Hp|id Hn]; intros r2 H2;
+    inversion H2 as [id' nd' v' Hn' Hc'|id' nd' p' r' Hn' Hc' Hp' Hr'|id' nd' Hn' Hc' Hp'|id' Hn']; subst;
+    try (rewrite Hn in Hn'; inversion Hn'; subst); try congruence.
   rewrite Hp in Hp'; inversion Hp'; subst. apply IH; assumption.
 Qed.
 
@@ -40,9 +43,9 @@ Qed.
 Definition parents_older (s : state) : Prop :=
   forall id nd p, nodes s !! id = Some nd -> n_parent nd = Some p -> (p < id)%nat /\ is_Some (nodes s !! p).
 
-Lemma use_ctx_from_total s ty : parents_older s ->
+Lemma use_ctx_from_total fx s ty : parents_older s ->
   forall g id first, (id < g)%nat -> is_Some (nodes s !! id) ->
-  exists r, use_ctx_from g ty id first s = Ok r s.
+  exists r, use_ctx_from fx g ty id first s = Ok r s.
 Proof.
   intros Hpo g. induction g as [|g IH]; intros id first Hlt [nd Hn]; [lia|].
   cbn. rewrite Hn. destruct (ctx_find ty (n_context nd)) as [v|]; [eauto|].
@@ -62,7 +65,7 @@ Proof.
     + intros H; inversion H; subst. split; [reflexivity|]. split; [|reflexivity].
       intros Hs. apply andb_prop in E as [_ E]. unfold alive in E.
       rewrite bool_decide_eq_true_2 in E by exact Hs. discriminate.
-    + intros H. destruct (use_ctx_from_nearest _ _ _ _ _ _ _ H) as [Hn ->]. split; [reflexivity|].
+    + intros H. destruct (use_ctx_from_nearest _ _ _ _ _ _ _ _ H) as [Hn ->]. split; [reflexivity|].
       split; [intros _; exact Hn|]. intros Hd. inversion Hn; congruence.
   - destruct fx; [|discriminate]. intros H; inversion H; subst. split; reflexivity.
 Qed.
